@@ -22,7 +22,7 @@ from pbt import c02_ref_itp
 
 PROPERTY = 'C11'
 LEVEL = 'exploration'
-RULE = ('a contiguous fragment (4-24 residues quick / 4-40 thorough, optionally crossing a chain boundary, or split into two chains with generated identifiers by leaving one residue out) of one of 12 test structures (one case in five around a histidine that carries both ring hydrogens; one case in three around one of the 7 disulfide bridges of the structures, the S-S bond stated by CONECT records in both files, three times in four with -cys none so that only the records put it into the topology) '
+RULE = ('a contiguous fragment (4-24 residues quick / 4-40 thorough, optionally crossing a chain boundary, or split into two chains with generated identifiers by leaving one residue out) of one of 12 test structures (one case in five around a histidine that carries both ring hydrogens; one case in three around one of the disulfide bridges of the structures (within a chain, or between two chains that a TER record separates), the S-S bond stated by CONECT records in both files, three times in four with -cys none so that only the records put it into the topology) '
         '(with and without hydrogens, with disulfides, two chains) x a presentation change (within-residue atom permutation, '
         'hydrogen renaming by scheme or unique random names, in CONECT cases three times in four every atom keeps the serial number of the file as is so that serial numbers do not follow the order of the file, otherwise atoms are renumbered and the records name the new numbers, synthetic alternate-location records, one of 24 exact rotations + grid translation up to 20 A, one case in three up to 400 A, one in four such that a heavy atom lands on the origin exactly, PYTHONHASHSEED in '
         '{0,1,4242}) x pipeline options (-ff martini3001/martini22/elnedyn22, -elastic with bounds, -p backbone, -ss, -dssp, -cys, '
@@ -109,7 +109,7 @@ def preload():
             names = {line[12:16].strip() for line in lines}
             if key[2] in ('HIS', 'HSP', 'HSD', 'HSE') and {'HD1', 'HE2'} <= names:
                 _FOCUS.append((sidx, ridx))
-    # pairs of cysteines of one chain, at most 22 residues apart, whose sulphur atoms are within 2.5 Angstrom: the bond
+    # pairs of cysteines (of one chain or of two chains that follow each other in the file), at most 22 residues apart, whose sulphur atoms are within 2.5 Angstrom: the bond
     # between them can be stated in the file by a CONECT record
     for sidx, src in enumerate(corpus):
         sulphurs = []
@@ -119,7 +119,7 @@ def preload():
                     sulphurs.append((ridx, key[0], (float(line[30:38]), float(line[38:46]), float(line[46:54]))))
         for pos, (r1, c1, x1) in enumerate(sulphurs):
             for r2, c2, x2 in sulphurs[pos + 1:]:
-                if c1 == c2 and r2 - r1 <= 22 and sum((a - b) ** 2 for a, b in zip(x1, x2)) < 2.5 ** 2:
+                if r2 - r1 <= 22 and sum((a - b) ** 2 for a, b in zip(x1, x2)) < 2.5 ** 2:
                     _BRIDGES.append((sidx, r1, r2))
     _CORPUS = corpus
 
@@ -616,6 +616,8 @@ def run(case):
         classes.append('conect-records')
         if transform.get('keep_serial') and moved:
             classes.append('conect-serials-out-of-file-order')
+        if any(residues[a[0]][0][0] != residues[b[0]][0][0] for a, b in conect):
+            classes.append('conect-between-chains')
     n_inter = sum(len(l) for mt in out_a['moltypes'].values() for l in mt['inter'].values())
     if n_inter:
         classes.append('has-interactions')
